@@ -39,8 +39,9 @@ def regex_shape(pattern: str):
     items = list(p)
     info = {"anchored": False, "sep": None, "version_digits_only": False, "optional_version": False, "name_group": False,
             "name_lazy": False}
-    if items and items[0][0] == sp.AT and items[0][1] == sp.AT_BEGINNING and items[-1][0] == sp.AT and items[-1][1] == sp.AT_END:
+    if items and items[0][0] == sp.AT and items[0][1] in (sp.AT_BEGINNING, sp.AT_BEGINNING_STRING) and items[-1][0] == sp.AT and items[-1][1] in (sp.AT_END, sp.AT_END_STRING):
         info["anchored"] = True
+        info["end_string"] = items[-1][1] == sp.AT_END_STRING
 
     def find_groups(seq, path=()):
         for op, av in seq:
@@ -216,8 +217,12 @@ def check(tier: str) -> Result:
             if G.kind == "call" and G.args[0].kind == "attr" and G.args[0].args[1] == "group" and \
                     [x.args[0] if x.kind == "const" else None for x in G.args[1]] == ["name", "version"]:
                 M = G.args[0].args[0]
-                ok = M.kind == "call" and M.args[0].kind == "attr" and M.args[0].args[0] is RE and M.args[0].args[1] in ("fullmatch", "match") \
-                    and M.args[1] == (idp,)
+                meth = M.args[0].args[1] if (M.kind == "call" and M.args[0].kind == "attr") else None
+                # `$` also matches before a trailing newline: only fullmatch (or match with \Z) rejects "name-v0\n"
+                whole = meth == "fullmatch" or (meth == "match" and info.get("end_string"))
+                ok = M.kind == "call" and M.args[0].kind == "attr" and M.args[0].args[0] is RE and bool(whole) and M.args[1] == (idp,)
+                if meth == "match" and not info.get("end_string"):
+                    why += " -- .match with a `$` anchor accepts an id followed by a newline (malformed ids must be rejected)"
     res.add("C18.R1", f.loc(), "registration.parse_env_id", "returns (match.group('name'), int(match.group('version'))) of ENV_NAME_RE on the id", ok, why)
     # raising branches
     raises = []
